@@ -26,7 +26,7 @@ def rng(env, stream):
     return random.Random("%s:%s:%s" % (env["seed"], env["pid"], stream))
 
 
-_WD = {"n": 0, "r": None}
+_WD = {"n": 0, "r": None, "task": None}
 
 
 class R:
@@ -67,6 +67,7 @@ class R:
                     "expected": _js(expected),
                     "observed": _js(observed),
                     "note": note,
+                    "task": _WD.get("task"),
                 }
             )
         else:
@@ -183,6 +184,7 @@ def _worker(job):
     _WD["n"] = 0
     _WD["miss"] = 0
     _WD["r"] = None
+    _WD["task"] = {"mod": modname, "task": fname, "args": args, "env": env}
     try:
         mod = importlib.import_module(modname)
         f = getattr(mod, "task_" + fname)
@@ -322,6 +324,19 @@ def write_replay(pid, v):
             % (pid, "replays/%s/test_%s.py" % (pid, sha), sha, sha + ".json")
         )
     return path
+
+
+def replay_task(a):
+    """Re-run one whole explorer task (deterministic in its arguments) and report the recorded
+    violation key if it occurs again: the replay of a violation that needs the task's own call
+    history (earlier calls in the same process) to manifest."""
+    mod = importlib.import_module(a["mod"])
+    r = getattr(mod, "task_" + a["task"])(a["args"], a["env"])
+    for v in r.viols:
+        if v["key"] == a["key"]:
+            return {"key": v["key"], "expected": v["expected"], "observed": v["observed"], "note": v.get("note"),
+                    "history": "manifests only after the earlier calls of this task (history-dependent)"}
+    return None
 
 
 def run_replay_fn(fn, args):
